@@ -857,9 +857,9 @@ func (e *Exec) rangeFact(v Term, t types.Type) Term {
 			Le(SCap(v), IntLit(1<<47)), Le(SOff(v), IntLit(1<<48)),
 			Implies(Eq(SRef(v), IntLit(0)), And(Eq(SLen(v), IntLit(0)), Eq(SCap(v), IntLit(0)))))
 	case *types.Pointer:
-		return Le(IntLit(0), v)
+		return True // separately allocated objects are positive, element objects of slices of structs negative, nil is 0
 	case *types.Interface:
-		return And(Le(IntLit(0), CKind(v)), Le(IntLit(0), CRef(v)), Implies(Eq(CKind(v), IntLit(0)), Eq(CRef(v), IntLit(0))))
+		return And(Le(IntLit(0), CKind(v)), Implies(Eq(CKind(v), IntLit(0)), Eq(CRef(v), IntLit(0))))
 	case *types.Struct:
 		var fs []Term
 		for i := 0; i < x.NumFields(); i++ {
